@@ -412,3 +412,133 @@ func addCondToDBM(m *DBM, k *Keyer, cond ssa.Value, pol bool) bool {
 	}
 	return false
 }
+
+// Upper returns the tightest known upper bound of a.Var+a.K − (b.Var+b.K), if any.
+func (m *DBM) Upper(a, b Term) (int64, bool) {
+	i, j := m.id(a.Var), m.id(b.Var)
+	if i == j {
+		return a.K - b.K, true
+	}
+	d := m.close()
+	if d[i][j] >= inf {
+		return 0, false
+	}
+	return d[i][j] + a.K - b.K, true
+}
+
+// deriveSumFacts strengthens m with facts about sums of two variables, which a difference-bound matrix cannot represent
+// directly, and about loop counters:
+//   - a counter i = phi(init, i±c) that only moves in one direction stays on that side of init;
+//   - for two sums X+Y and X+Z with a common addend, (X+Y) − (X+Z) = Y − Z, so a known bound on Y − Z carries over;
+//   - X+Y − X = Y, so a constant bound on Y bounds the sum against X.
+//
+// The values to look at are the operands of the guards at block b and the extra roots (an index expression).
+func deriveSumFacts(m *DBM, k *Keyer, b *ssa.BasicBlock, roots ...ssa.Value) {
+	type sum struct {
+		v    *ssa.BinOp
+		x, y ssa.Value
+	}
+	var sums []sum
+	seen := map[ssa.Value]bool{}
+	var phis []*ssa.Phi
+	var visit func(v ssa.Value, depth int)
+	visit = func(v ssa.Value, depth int) {
+		if v == nil || depth > 6 {
+			return
+		}
+		v = k.res(v)
+		if seen[v] {
+			return
+		}
+		seen[v] = true
+		switch x := v.(type) {
+		case *ssa.BinOp:
+			if x.Op == token.ADD || x.Op == token.SUB {
+				_, cx := constInt(x.X)
+				_, cy := constInt(x.Y)
+				if !cx && !cy && x.Op == token.ADD && isIntegerType(x.Type()) {
+					sums = append(sums, sum{x, k.res(x.X), k.res(x.Y)})
+				}
+				visit(x.X, depth+1)
+				visit(x.Y, depth+1)
+			}
+		case *ssa.Convert:
+			visit(x.X, depth+1)
+		case *ssa.ChangeType:
+			visit(x.X, depth+1)
+		case *ssa.Phi:
+			phis = append(phis, x)
+			for _, e := range x.Edges {
+				visit(e, depth+1)
+			}
+		}
+	}
+	for _, g := range guardsAt(b) {
+		if bo, ok := g.Cond.(*ssa.BinOp); ok {
+			visit(bo.X, 0)
+			visit(bo.Y, 0)
+		}
+	}
+	for _, r := range roots {
+		visit(r, 0)
+	}
+	// monotone counters
+	for _, ph := range phis {
+		if len(ph.Edges) != 2 || !isIntegerType(ph.Type()) {
+			continue
+		}
+		for e := 0; e < 2; e++ {
+			step, ok := ph.Edges[e].(*ssa.BinOp)
+			if !ok || (step.Op != token.ADD && step.Op != token.SUB) || k.res(step.X) != ssa.Value(ph) {
+				continue
+			}
+			c, isC := constInt(step.Y)
+			if !isC || c == 0 {
+				continue
+			}
+			if step.Op == token.SUB {
+				c = -c
+			}
+			init := k.TermOf(ph.Edges[1-e])
+			self := k.TermOf(ph)
+			if c < 0 {
+				m.AddLE(self, init) // only ever decreases
+			} else {
+				m.AddLE(init, self)
+			}
+		}
+	}
+	// sums with a common addend
+	for i := range sums {
+		for j := range sums {
+			if i == j {
+				continue
+			}
+			a, c := sums[i], sums[j]
+			pairs := [][4]ssa.Value{{a.x, a.y, c.x, c.y}, {a.x, a.y, c.y, c.x}, {a.y, a.x, c.x, c.y}, {a.y, a.x, c.y, c.x}}
+			for _, pr := range pairs {
+				if pr[0] != pr[2] {
+					continue
+				}
+				if d, ok := m.Upper(k.TermOf(pr[1]), k.TermOf(pr[3])); ok {
+					ta, tc := k.TermOf(a.v), k.TermOf(c.v)
+					m.AddLE(ta, Term{tc.Var, tc.K + d})
+				}
+			}
+		}
+	}
+	// a sum against one of its addends
+	zero := Term{"", 0}
+	for _, s := range sums {
+		ts := k.TermOf(s.v)
+		for _, pr := range [][2]ssa.Value{{s.x, s.y}, {s.y, s.x}} {
+			base, other := k.TermOf(pr[0]), k.TermOf(pr[1])
+			if ub, ok := m.Upper(other, zero); ok {
+				m.AddLE(ts, Term{base.Var, base.K + ub})
+			}
+			if lb, ok := m.Upper(zero, other); ok { // 0 − other ≤ lb  ⇒ other ≥ −lb
+				m.AddLE(Term{base.Var, base.K - lb}, ts)
+			}
+		}
+	}
+}
